@@ -42,6 +42,7 @@ type Gen struct {
 	lastEst      map[string]string // peering id -> last establishment / pending secret written (so that exchanges and promotions sometimes match)
 	lastPend     map[string]string
 	nsess        int // sessions are minted with fresh ids, as the Session endpoint does
+	lastProxy    map[string]*structs.NodeService // last sidecar proxy registered per peer/node
 }
 
 // recentSess picks one of the last few minted session ids (or a never-minted one)
@@ -212,6 +213,22 @@ func (g *Gen) register() (structs.MessageType, any, string) {
 	case 0:
 	case 1, 2:
 		req.Service = g.nodeService(peer, n)
+		if k := peer + "/" + n; req.Service.Kind == structs.ServiceKindConnectProxy {
+			// a sidecar is often re-registered IN PLACE with another set of upstreams (or none): remember the last one per node
+			if last, ok := g.lastProxy[k]; ok && g.chance(2) {
+				cp := *last
+				cp.Proxy.Upstreams = nil
+				if g.chance(2) {
+					cp.Proxy.Upstreams = structs.Upstreams{{DestinationName: g.pick(gSvcNames), LocalBindPort: 9000 + g.R.Intn(3)}}
+				}
+				req.Service = &cp
+			}
+			if g.lastProxy == nil {
+				g.lastProxy = map[string]*structs.NodeService{}
+			}
+			keep := *req.Service
+			g.lastProxy[k] = &keep
+		}
 		if g.chance(2) {
 			req.Checks = structs.HealthChecks{g.check(n, req.Service.ID, peer)}
 			if g.chance(3) {
